@@ -711,7 +711,9 @@ impl<C: KeyColl> KeyExec<C> {
                 let mut phys = None;
                 if C::IS_TREE && (mon.capacity || mon.phys) {
                     if let Some(s) = self.sut.as_ref().unwrap().snap() {
-                        let n = s.slots.len() - 1 - s.free.len();
+                        // entries physically stored = slots linked into the tree (a slot that is
+                        // neither linked nor free must not count as an entry)
+                        let n = snap::reachable(&s).iter().filter(|x| **x).count();
                         phys = Some(n);
                         if mon.phys {
                             let live = snap::reachable(&s);
